@@ -179,6 +179,14 @@ let run (args : (string * string) list) : string =
       match kind with
       | "seq" | "fair" | "fairnp" | "lowmem" ->
         if ivisit i "x" = "1" then (vmodel := []; Hashtbl.reset before);
+        (* nodes reported by an abandoned (interrupted) visit that preceded this one on the same
+           visitor: they are marked as visited, nothing else of it may survive *)
+        (match get_opt args (Printf.sprintf "a%d" i) with
+         | Some a ->
+           List.iter (fun v ->
+               if not (List.mem (n_of_int v) !vmodel) then vmodel := n_of_int v :: !vmodel;
+               Hashtbl.replace before v ()) (ints_of_string a)
+         | None -> ());
         let levels_m = bfs_levels g f roots !vmodel in
         let levels = List.map (List.map int_of_n) levels_m in
         let evs = parse_events es in
